@@ -157,6 +157,7 @@ pub fn c16(a: &Args) {
     for (file, tt) in models.iter() {
         let Ok(mut d) = load(file) else { continue };
         out.circuit(&export_nodes(&d), &circuit_line(&d));
+        out.query("hasparents", "", "true");
         let n = file.n as i32;
         for _ in 0..(if a.thorough() { 40 } else { 16 }) {
             let len = match r2.below(8) { 0 => 1, 1..=5 => 2 + r2.below(4), 6 => 20, _ => 21 + r2.below(4) };
